@@ -27,7 +27,10 @@ Fixpoint elem_eqb (a b : elem) {struct a} : bool :=
 Definition list_eqb (a b : list elem) : bool := elem_eqb (EArr a) (EArr b).
 
 (* named callbacks: the closures the engine defines in its setup script *)
-Inductive cbk := CbPair | CbIdx | CbIdxEven | CbEq2 | CbGe1 | CbDup | CbSelf | CbLen | CbFalse | CbTrue.
+(* CbLocal / CbLocalAcc use a LOCAL variable of the closure (every invocation starts with it unset);
+   CbDefault declares four parameters with defaults (the method supplies three arguments) *)
+Inductive cbk := CbPair | CbIdx | CbIdxEven | CbEq2 | CbGe1 | CbDup | CbSelf | CbLen | CbFalse | CbTrue
+               | CbLocal | CbLocalAcc | CbDefault.
 Definition cb_fun (c : cbk) : callback := fun e i all =>
   match c with
   | CbPair => EArr [e; EInt i]
@@ -40,6 +43,9 @@ Definition cb_fun (c : cbk) : callback := fun e i all =>
   | CbLen => EInt (zlen all)
   | CbFalse => EBool false
   | CbTrue => EBool true
+  | CbLocal => EInt 1
+  | CbLocalAcc => EInt (10 + i)
+  | CbDefault => EArr [EInt i; EInt 5]
   end.
 (* closures that throw at a given index *)
 Inductive tcbk := TcAt1 | TcAt2Zero | TcAt2Pair.
@@ -53,11 +59,12 @@ Definition tcb_fun (c : tcbk) : callbackT := fun e i all =>
 Inductive mcbk := McPush | McPushEq1.
 Definition mcb_fun (c : mcbk) : callback := fun e i all =>
   match c with McPush => EInt i | McPushEq1 => EBool (i =? 1) end.
-Inductive rcbk := RcAcc | RcAccLen.
+Inductive rcbk := RcAcc | RcAccLen | RcAccDef.
 Definition rc_fun (c : rcbk) : rcallback := fun acc e i all =>
   match c with
   | RcAcc => EArr [acc; e; EInt i]
   | RcAccLen => EArr [acc; EInt (zlen all)]
+  | RcAccDef => EArr [acc; e; EInt 5; EInt 1]
   end.
 
 Inductive obs := OVal (res : elem) (after : list elem) | OThrow | OThrowA (after : list elem) | OPanic | OOther.
@@ -78,7 +85,10 @@ Inductive case :=
 | CLen (recv : list elem) (o : obs)
 | CCbT (m : meth) (c : tcbk) (recv : list elem) (o : obs)      (* throwing callback *)
 | CCbM (m : meth) (c : mcbk) (recv : list elem) (o : obs)      (* callback mutating the receiver *)
-| CSeq (recv : list elem) (steps : list (sstep * obs)).
+| CSeq (recv : list elem) (steps : list (sstep * obs))
+(* a call written with named arguments; pn = the parameter names and kinds of the real method
+   object (measured by the engine), pos = the positional arguments, named = the name: value pairs *)
+| CNamed (m : meth) (pn : list (string * pkind)) (recv pos : list elem) (named : list (string * elem)) (o : obs).
 
 Definition pair_agree (p : elem * list elem) (o : obs) : bool :=
   match o with OVal r a => elem_eqb (fst p) r && list_eqb (snd p) a | _ => false end.
@@ -128,9 +138,16 @@ Fixpoint check_seq (i : nat) (l : list elem) (steps : list (sstep * obs)) : list
       check_seq (S i) (snd p) r
   end.
 
-Definition check_case (c : case) : list nat :=
-  match c with
-  | CCall m recv args o =>
+Definition pkind_eqb (a b : pkind) : bool :=
+  match a, b with PSingle, PSingle | PVariadic, PVariadic => true | _, _ => false end.
+Fixpoint sig_eqb (a b : list pkind) : bool :=
+  match a, b with
+  | [], [] => true
+  | x :: a', y :: b' => pkind_eqb x y && sig_eqb a' b'
+  | _, _ => false
+  end.
+
+Definition check_call (m : meth) (recv args : list elem) (o : obs) : list nat :=
       (if pair_agree (call m recv args) o then [] else [1%nat]) ++
       (match m with
        | MSort => match o with
@@ -143,7 +160,20 @@ Definition check_case (c : case) : list nat :=
               end
        end) ++
       (if frame_ok m recv o then [] else [3%nat]) ++
-      (if not_panic o then [] else [4%nat])
+      (if not_panic o then [] else [4%nat]).
+
+Definition check_case (c : case) : list nat :=
+  match c with
+  | CCall m recv args o => check_call m recv args o
+  | CNamed m pn recv pos named o =>
+      (* the measured parameter kinds are the model's signature; a rejected binding is a catchable
+         error that leaves the receiver alone; an accepted one is the positional call *)
+      (if sig_eqb (map snd pn) (sig_of m) then [] else [1%nat]) ++
+      match bind_named pn pos named with
+      | Some args => check_call m recv args o
+      | None => (match o with OThrowA a => if list_eqb recv a then [] else [1%nat] | _ => [1%nat] end) ++
+                (if not_panic o then [] else [4%nat])
+      end
   | CCb m c recv o =>
       (if pair_agree (call_cb m (cb_fun c) recv) o then [] else [1%nat]) ++
       (match spec_cb m (cb_fun c) recv with
